@@ -560,7 +560,7 @@ def evaluate(ctx, results, hist, enum_info, table, rerun):
                        "an entity, each back edge) followed by repair and re-resolution on the same importer, after "
                        "removeAllModels and on a fresh importer; plus seeded random graphs of up to 6 files.  non-trivial = at "
                        "least one import is followed into another file; distinct by script text" % enum_info)
-    ctx.cov["samples"] = [results[i][0].to_json()["script"] for i in (0, len(results) // 2, len(results) - 1)] if results else []
+    ctx.cov["samples"] = [results[i][0].to_json() for i in (0, len(results) // 3, len(results) // 2, len(results) - 1)] if results else []
     ctx.cov["input_distribution"] = {"case_kinds": hist, "outcomes": dist, "issue_rules": rules,
                                      "known_finding_hits": known_counts, "disagreements_or_unexplained": nbad,
                                      "disagreements_waived_inside_known_finding_classes_where_the_property_holds": waived}
